@@ -17,6 +17,25 @@
 (*   Exception / Crash   the library threw / the process died: never a     *)
 (*          behaviour of the contract (all calls of the alphabet are valid)*)
 (***************************************************************************)
+(* Global operator new (fields gnew = during the call, gobs = during the    *)
+(* digest observation, both must be 0).  What is NOT counted, and why the  *)
+(* property does not cover it:                                             *)
+(*  - gtmp: the nothrow forms of operator new, i.e. the scratch buffer of  *)
+(*    std::inplace_merge (req_compactor::compact/merge) and                *)
+(*    std::stable_sort (tdigest::merge) obtained through                   *)
+(*    std::get_temporary_buffer: the standard algorithms have no allocator *)
+(*    parameter; logged, not judged;                                       *)
+(*  - the CPC compression tables: one process-wide immutable object        *)
+(*    created on first use ("use new for global initialization"), not      *)
+(*    memory of any sketch: created by the harness before the first call;  *)
+(*  - the caller's std::ostream in serialize(ostream&): the harness passes *)
+(*    a fixed-buffer stream, the stream's memory is the caller's business; *)
+(*  - to_string() (std::ostringstream, documented in the sources: "the     *)
+(*    stream does not support passing an allocator instance") and          *)
+(*    exception messages of refused calls: not in the alphabet (every call *)
+(*    of the alphabet is valid);                                           *)
+(*  - the AddressSanitizer build owns operator new: gnew = gobs = 0 there. *)
+(* Everything else, for every family and every call kind, is judged.       *)
 EXTENDS Lifecycle, TraceCommon
 tvars == <<vars, l>>
 
@@ -31,6 +50,7 @@ TStep == IsEvent("Step") /\ LET e == Log[l]
   /\ slot' = ns
   /\ Chk(s.bad, s.bad = "")
   /\ Chk("everything-released-when-last-object-dies", Balanced(ns, s))
+  /\ Chk("no-global-allocation-inside-library-call", NoGlobalAlloc(e.gnew, e.gobs))
   /\ Chk("digest-shape", DigShape(ns, D))
   /\ Chk("independent-of-other-objects", Independent(e.k, e.i, e.j, e.c, D))
   /\ Chk("copy-equals-source", CopyEqual(e.k, e.i, e.j, e.c, D))
